@@ -48,7 +48,8 @@ HARNESSES = [
     Harness('outputs_agree', h_outputs, setup=SC.setup,
             cases=[{'names': True}, {'names': False},
                    {'names': True, 'hmap': True},
-                   {'names': True, 'shared_label': True}],
+                   {'names': True, 'shared_label': True},
+                   {'names': True, 'childless': True}],
             thorough_cases=[{'names': True, 'encodings': True},
                             {'names': False, 'encodings': True}],
             funcs=['from_specified_markers.run_mapping', '_run_mapping',
